@@ -520,25 +520,22 @@ def run(ctx):
     quick = ctx.tier == "quick"
     items = [(nm, s, None) for nm, s in corpus_schemas()]
     run_batch(ctx, b, model_exe, items, "corpus")
-    n_core, n_wide = (18, 6) if quick else (500, 200)
-    g = G.Gen(ctx.rng)
+    n_gen = 24 if quick else 700
+    g = G.Gen(ctx.rng, n_types=(4, 11))
     core = []
-    for i in range(n_core):
+    for i in range(n_gen):
         s = g.schema()
-        core.append((f"core{i}", s, scramble_case(s.text(), ctx.rng) if i % 4 == 3 else None))
-    run_batch(ctx, b, model_exe, core, "generated-core")
-    gw = G.Gen(ctx.rng, renamed_enum=True, renamed_select=True, named_aggr_of_enumsel=True, named_multidim=True,
-               n_types=(5, 12))
-    wide = [(f"wide{i}", gw.schema(), None) for i in range(n_wide)]
-    run_batch(ctx, b, model_exe, wide, "generated-all-type-shapes")
+        core.append((f"gen{i}", s, scramble_case(s.text(), ctx.rng) if i % 4 == 3 else None))
+    run_batch(ctx, b, model_exe, core, "generated")
     if core:
         ctx.sample({"schema": core[0][1].text()[:1200]})
         ctx.sample({"ast": core[0][1].ast()[:800]})
     ctx.cov["rule"] = ("random single-schema EXPRESS files from vlib/schema_gen_c02.py: 3-9 entities on a random DAG (chains, diamonds, up to 3 "
                        "supertypes), explicit/optional/derived/inverse/redeclared attributes of every base type, defined types, entities, "
                        "1-D and nested aggregates with literal and ? bounds, UNIQUE/OPTIONAL; enumerations, selects, renamed types; "
+                       "renamed enumerations/selects/aggregates, rename chains of length 1..3 over simple, enumeration, select and aggregate types, "
+                       "named aggregates of enumerations/selects and named nested aggregates; "
                        "keyword-like identifiers, doubled/trailing underscores, every 4th schema with randomly scrambled letter case; "
-                       "second stream adds renamed enumerations/selects, named aggregates of enumerations/selects and named nested aggregates; "
                        "distinct = distinct schema texts")
     if not proof_ok and not ctx.violations:
         pass   # broken proof already recorded by ctx.lean; the streams above were the violation search
